@@ -193,6 +193,8 @@ func (ap *AttestationPool) Search(opts ...AttSearchOption) (out []*phase0.Attest
 	for _, opt := range opts {
 		opt(&conf)
 	}
+	ap.RLock()
+	defer ap.RUnlock()
 	for k, d := range ap.datas {
 		if conf.slot != nil && d.Data.Slot != *conf.slot {
 			continue
@@ -215,6 +217,8 @@ func (ap *AttestationPool) Search(opts ...AttSearchOption) (out []*phase0.Attest
 
 // Prune pool based on current epoch, attestations which cannot be included anymore will get pruned.
 func (ap *AttestationPool) Prune(epoch common.Epoch) {
+	ap.Lock()
+	defer ap.Unlock()
 	min := epoch.Previous()
 	for k, v := range ap.datas {
 		if v.Data.Target.Epoch < min {
